@@ -16,6 +16,11 @@ func SetUserIdentity(repo repository.RepoConfig, identity *Identity) error {
 }
 
 func ClearUserIdentity(repo repository.RepoConfig) error {
+	_, err := repo.LocalConfig().ReadString(identityConfigKey)
+	if errors.Is(err, repository.ErrNoConfigEntry) {
+		// nothing to clear
+		return nil
+	}
 	return repo.LocalConfig().RemoveAll(identityConfigKey)
 }
 
